@@ -71,6 +71,8 @@ def requirements(tier):
     for b in ("M2E:ell:minus", "M2E:ell:plus", "M2E:hyp<1.6:minus", "M2E:hyp<1.6:plus", "M2E:hyp<3.6:sign", "M2E:hyp:ratio"):
         req[b] = 20
     req["infos-evaluated"] = 100
+    req["infos-evaluated:derived"] = 100
+    req["infos-evaluated:original"] = 50
     return req
 
 
@@ -262,14 +264,43 @@ def run_case(ctx, job, idx, rng, st):
 
 
 def infos_check(ctx, sv_cart, c, r, v, mu, rscale, vscale, hyper, witness, rng, forms):
+    infos_one(ctx, sv_cart.copy(form=rng.choice(forms)), c, r, v, mu, hyper, dict(witness, history="fresh"), "fresh")
+    # history: the infos of a state are consulted, then a state DERIVED from it (copy, in-place edit) is asked for its own
+    # infos: they must describe the derived state, not the one consulted before
+    src = sv_cart.copy()
+    _ = (src.infos.r, src.infos.v, src.infos.energy, src.infos.fpa)
+    k_r, k_v = rng.uniform(1.05, 1.6), rng.uniform(0.7, 0.95) if not hyper else rng.uniform(1.05, 1.3)
+    r2, v2 = r * k_r, v * k_v
+    e2 = el.classical(r2, v2, mu)["e"]
+    if (e2 < 0.999 or e2 > 1.001) and e2 > 1e-4:
+        c2 = dict(c)
+        how = rng.choice(["copy-then-edit", "edit-in-place", "copy-form-then-edit"])
+        if how == "copy-then-edit":
+            dst = src.copy()
+        elif how == "edit-in-place":
+            dst = src
+        else:
+            dst = src.copy(form="spherical").copy(form="cartesian")
+        dst[:3] = r2
+        dst[3:] = v2
+        ctx.count("infos-history:" + how)
+        infos_one(ctx, dst, c2, r2, v2, mu, e2 > 1, dict(witness, history=how, k_r=k_r, k_v=k_v), "derived")
+        if how != "edit-in-place":
+            # and the state consulted first still reports its own quantities
+            infos_one(ctx, src, c, r, v, mu, hyper, dict(witness, history="original-after-" + how), "original")
+
+
+def infos_one(ctx, sv, c, r, v, mu, hyper, witness, tag):
     body = gen.bodies()[c["body"]]
-    form = rng.choice(forms)
-    sv = sv_cart.copy(form=form)
+    rscale, vscale = float(np.linalg.norm(r)), float(np.linalg.norm(v))
+    form = sv.form.name
     inf = sv.infos
     cl = el.classical(r, v, mu)
     a, e = cl["a"], cl["e"]
     ctx.count("infos-evaluated")
+    ctx.count("infos-evaluated:" + tag)
     w = dict(witness, infos_form=form)
+    ksuf = "" if tag == "fresh" else "-stale-after-history"
 
     def chk(name, got, exp, tol, keysuffix=None):
         try:
@@ -278,7 +309,7 @@ def infos_check(ctx, sv_cart, c, r, v, mu, rscale, vscale, hyper, witness, rng, 
             ctx.violation(f"C01/infos-{name}-raises", dict(w, exc=repr(exc)), f"infos.{name} raised {exc!r}")
             return
         d = abs(g - exp)
-        ctx.resid(f"infos:{name}", d, tol, key=f"C01/infos-{keysuffix or name}", witness=dict(w, quantity=name, got=g, expected=exp),
+        ctx.resid(f"infos:{name}", d, tol, key=f"C01/infos-{keysuffix or name}{ksuf}", witness=dict(w, quantity=name, got=g, expected=exp),
                   msg=f"infos.{name} = {g!r}, defining relation gives {exp!r}")
 
     rel = 1e-9
